@@ -109,6 +109,8 @@ pub struct BrokerCfg {
     pub handshake: Option<Vec<HsStep>>,
     /// per-mille of spurious wake-ups injected per s2c segment
     pub spurious_permille: u32,
+    /// consumer tags are "ctag-<channel>-<n-th consumer on it>" instead of globally unique
+    pub fixed_consumer_tags: bool,
 }
 
 /// One step of a scripted handshake: what the server does after receiving the
@@ -171,6 +173,7 @@ impl Default for BrokerCfg {
             mux_gap_max_ns: 0,
             handshake: None,
             spurious_permille: 0,
+            fixed_consumer_tags: false,
         }
     }
 }
@@ -1330,7 +1333,13 @@ impl Broker {
                 B::Qos(_) => self.reply(ch, AMQPClass::Basic(B::QosOk(basic::QosOk {}))),
                 B::Recover(_) => self.reply(ch, AMQPClass::Basic(B::RecoverOk(basic::RecoverOk {}))),
                 B::Consume(c) => {
-                    let tag = if c.consumer_tag.is_empty() { format!("ctag-{}-{}", ch, self.uniq()) } else { c.consumer_tag.clone() };
+                    let tag = if !c.consumer_tag.is_empty() {
+                        c.consumer_tag.clone()
+                    } else if self.cfg.fixed_consumer_tags {
+                        format!("ctag-{}-{}", ch, self.chans.get(&ch).map(|c| c.consumers.len()).unwrap_or(0))
+                    } else {
+                        format!("ctag-{}-{}", ch, self.uniq())
+                    };
                     let cs = self.chans.entry(ch).or_default();
                     cs.consumers.push((tag.clone(), true, false));
                     let before = self.script_fired.clone();
